@@ -21,7 +21,7 @@ for pid, (extra, text) in {
  "C03": ("refinement PROPERTY DoistRefine!FlatSpec: the deque scheduler refines the abstract cycle model FlatSched.tla", "the real (doer,tyme) recur sequence equals the model's for every behaviour, with four exact time scales, start tymes and tocks"),
  "C04": ("every regrouping refines the same FlatSched instance (TLC refinement check)", "real nested and real flattened forests are run from the same scripts and must equal each other (leaf events, completion, done flags); a difference both share with the model is recorded as a divergence"),
  "C05": ("invariants EndExact/DoneExact", "doist.done, final tyme, how the run ended and every doer.done compared for all limits/completion points in the bounds"),
- "C06": ("invariants OpsExact/LifeOK", "membership after every extend/remove call, the events inside the call, first recur of new doers, no recur of removed doers"),
+ "C06": ("invariants OpsExact/LifeOK", "membership after every extend/remove call, the events inside the call, first recur of new doers, no recur of removed doers (a removed doer may be an idle DoDoer(always=True), whose done flag is True while it runs)"),
  "C30": ("same model as C03/C05", "do() and asyncio.run(ado()) are run on fresh objects from the same script and must equal each other in the full event log, flags, tyme and membership; a difference both share with the model is recorded as a divergence"),
 }.items():
     CLAIMED[pid] = (SCHED + "; " + extra, "Exhaustive model checking of the scheduler design within the stated bounds plus conformance of the real code on every enumerated and on thousands of simulated behaviours: " + text, "3 " + pid, "")
@@ -47,7 +47,9 @@ CLAIMED["C23"] = (
     "TLA+ spec specs/store/Queue.tla (cache + durable mirror + abstract queue/set, one action per public operation structured "
     "like the code, close/reopen/resync of the store between any two operations): TLC exhaustive MC of Mirror/IsModel/"
     "NoMismatch/SetUnique/FifoPull; operation histories with expected result, content and durable content (all short ones + "
-    "tlc -simulate) executed on real Durq/Dusq injected by a real Hold over a real Subery (LMDB) (spec->code)",
+    "tlc -simulate) executed on real Durq/Dusq injected by a real Hold over a real Subery (LMDB) (spec->code); beyond the property, "
+    "specs/store/Can.tla (the third durable kind, Can objects: set/update/sync/pin/inject/close/open as coded) is model checked "
+    "and replayed the same way, differences recorded as divergences",
     "Exhaustive model checking of the queue/set design with reopen at every point, within the bounds, plus conformance of the real "
     "classes over a real LMDB store on every enumerated and on thousands of simulated histories (result, list(q) and sdb.get(key) "
     "after every operation, before and after reopen).", "3 C23", "")
@@ -112,7 +114,8 @@ CLAIMED["C11"] = (
     "every enumerated and on thousands of simulated histories.", "3 C11", "")
 CLAIMED["C12"] = (
     "TLA+ spec specs/http/Idle.tla (virtual tyme, one service() per tick, client activity per tick: nothing / bytes of an unfinished "
-    "request / a complete persistent request): TLC exhaustive MC of the action properties ClosedOnlyIfIdle/IdleGetsClosed/"
+    "request / a complete persistent request / a non persistent request answered by a streaming application in pieces, "
+    "stalled, or to a peer that stopped reading so that every send() would block; at most one Server.wind()): TLC exhaustive MC of the action properties ClosedOnlyIfIdle/IdleGetsClosed/"
     "TrafficKeepsOpen/PersistentStays for T in {1,2,3}; every behaviour executed on real http.Server (plain and TLS servant) and "
     "http.BareServer driven by a Tymist over scripted sockets, the tick at which the peer socket is closed compared (spec->code)",
     "Exhaustive model checking of the idle rule for every activity timing over 7 (quick) / 9 ticks and three tymeouts plus "
@@ -163,7 +166,7 @@ CLAIMED["C18"] = (
     "real server on every enumerated behaviour, judged through an independent HTTP parser.", "3 C18", "")
 CLAIMED["C19"] = (
     "TLA+ spec specs/http/ClientQueue.tla (request queue, in-flight request, redirect hops, current server, wire log, response "
-    "queue; server scripts ok / delayed / redirect relative, absolute, two hops, other server, https->http / close before or "
+    "queue; server scripts ok / delayed / 201 Created with a Location field / redirect relative, absolute, two hops, other server, https->http / close before or "
     "during the answer): TLC exhaustive MC of OneAtATime/FifoOneToOne/WireInQueueOrder/RedirectTransparent/NoDowngrade/"
     "EveryRequestAnswered; every queue executed on a real http.Client over scripted sockets against a scripted peer, response queue "
     "and wire sequence compared (spec->code)",
